@@ -750,6 +750,11 @@ func (r *runner) calculateBranch(ctx context.Context, curNodeKey string, startCh
 			delete(skippedNodes, selected)
 		}
 	}
+	// a successor this node also triggers through a plain control edge is routed to whatever
+	// its branches select: it must not be reported as skipped.
+	for _, key := range startChan.controls {
+		delete(skippedNodes, key)
+	}
 	for skipped := range skippedNodes {
 		skippedNodeList = append(skippedNodeList, skipped)
 	}
